@@ -8,7 +8,7 @@ use serde_json::{json, Value};
 pub const DEF: PropDef = PropDef {
     id: "C11",
     level: "exploration",
-    rule: "(1) all sequences of 1..4 (thorough 1..5) atoms after 6 heads (`x is`, `x was`, `x are`, `x's`, `the zed were`, `rock x like`) over 24 atoms (words of length 1,3,9,10,11,20,23; words with inner / trailing / leading apostrophes; 's, 're, 's's suffixes; hyphenated words; keywords used as words; a non-ASCII word; a numeral; period and comma as separate and glued atoms); expected = the decimal numeral spelled by the word lengths, correctly rounded; printed value within 4 ulp, exact for integers; (2) all line texts of length <=4 (thorough <=5) over {a, space, comma, period, !, apostrophe, é, 1, -} plus whole-lexeme atoms after `x says ` / `x said `: output equals the text byte for byte; (3) PoeticNumberLiteral::compute_value on every digit string of length <=6 (thorough <=7) x every position of the decimal point, each digit realised as a word of that length, and again as word + suffix splits; (4) right-hand sides that start with a literal word or a negative number are ordinary expressions; (5) one fixed probe of the recorded finding (an open quote in a poetic string swallows the following lines); non-trivial = all cases except the trivially empty text; distinct = distinct text / literal",
+    rule: "(1) all sequences of 1..4 (thorough 1..5) atoms after 6 heads (`x is`, `x was`, `x are`, `x's`, `the zed were`, `rock x like`) over 27 atoms (words of length 1,3,9,10,11,20,23; words with inner / trailing / leading apostrophes; 's, 're, 's's suffixes; hyphenated words incl. keywords and numerals after the hyphen; keywords used as words; a non-ASCII word; a numeral; period and comma as separate and glued atoms); expected = the decimal numeral spelled by the word lengths, correctly rounded; printed value within 4 ulp, exact for integers; (2) all line texts of length <=4 (thorough <=5) over {a, space, comma, period, !, apostrophe, é, 1, -} plus whole-lexeme atoms after `x says ` / `x said `: output equals the text byte for byte; (3) PoeticNumberLiteral::compute_value on every digit string of length <=6 (thorough <=7) x every position of the decimal point, each digit realised as a word of that length, and again as word + suffix splits; (4) right-hand sides that start with a literal word or a negative number are ordinary expressions; (5) one fixed probe of the recorded finding (an open quote in a poetic string swallows the following lines); non-trivial = all cases except the trivially empty text; distinct = distinct text / literal",
     assumptions: &[
         "texts that leave a quote or parenthesis open on the line are outside the property's quantifier (recorded finding) and are not generated, except the one fixed probe",
         "tolerance: 4 units in the last place for numerals of <= 7 digits; integers below 2^53 must be exact",
@@ -34,6 +34,9 @@ pub const ATOMS: &[(&str, usize)] = &[
     ("abc're", 5),
     ("abc's's", 5),
     ("all-out", 7),
+    ("know-it-all", 11),
+    ("catch-22", 8),
+    ("mother-of-pearl", 15),
     ("is", 2),
     ("the", 3),
     ("nothing", 7),
@@ -138,6 +141,33 @@ fn judge_value(numeral: &str, got: f64) -> Result<(), String> {
 pub const STRING_SYMS: &[&str] = &["a", " ", ",", ".", "!", "'", "é", "1", "-"];
 pub const STRING_ATOMS: &[&str] = &["is", "says", "\"q\"", "(c)", "it's", "a  b", "nothing", "x says y"];
 pub const KNOWN_PROBE: &str = "x says it's \"great\nsay x\nsay 1\n";
+
+/// digit patterns for long literals (8..=40 words)
+pub const LONG_PATTERNS: &[&str] = &["1", "9", "1234567890", "50", "7"];
+
+fn long_case(idx: u64) -> (String, String) {
+    let pos = (idx % 4) as usize;
+    let n = 8 + ((idx / 4) % 33) as usize;
+    let pat = LONG_PATTERNS[(idx / (4 * 33)) as usize].as_bytes();
+    let digits: Vec<u8> = (0..n).map(|i| pat[i % pat.len()] - b'0').collect();
+    let point = match pos {
+        0 => None,
+        1 => Some(1),
+        2 => Some(n / 2),
+        _ => Some(n - 1),
+    };
+    let mut words = Vec::new();
+    let mut numeral = String::new();
+    for (i, d) in digits.iter().enumerate() {
+        if point == Some(i) {
+            words.push(".".to_string());
+            numeral.push('.');
+        }
+        words.push("w".repeat(if *d == 0 { 10 } else { *d as usize }));
+        numeral.push(char::from(b'0' + *d));
+    }
+    (format!("x is {}\nsay x\nrock y like {}\nsay y at 0\n", words.join(" "), words.join(" ")), numeral)
+}
 
 pub struct C11 {
     seqs: Space<(usize, Vec<usize>)>,
@@ -258,6 +288,7 @@ impl Check for C11 {
             ("digits-with-suffix-splits".into(), self.digit_cases),
             ("expression-instead".into(), self.exprs.len() as u64),
             ("recorded-finding-probe".into(), 1),
+            ("long-literals".into(), (LONG_PATTERNS.len() * 33 * 4) as u64),
         ]
     }
     fn describe(&self, fam: usize, idx: u64) -> Value {
@@ -275,6 +306,10 @@ impl Check for C11 {
                 json!({"text": format!("{:?}", l.elems), "numeral": n})
             }
             4 => json!({"text": self.exprs[idx as usize].0}),
+            6 => {
+                let (t, n) = long_case(idx);
+                json!({"text": t, "numeral": n})
+            }
             _ => json!({ "text": KNOWN_PROBE }),
         }
     }
@@ -358,6 +393,26 @@ impl Check for C11 {
                 ctx.observe_str(&r.observe());
                 if r.parse_error.is_some() || r.result.is_err() || r.stdout_str() != want {
                     ctx.violation("wrong-value", format!("expected output {:?}, got {} — program {:?}", want, r.observe(), text));
+                }
+            }
+            6 => {
+                // long literals (8..40 words): executed through both poetic positions; relative
+                // accuracy 1e-14 (the summation error grows with the number of digits), never a crash
+                let (text, numeral) = long_case(idx);
+                ctx.case_text(&text);
+                ctx.nontrivial();
+                let r = subject::exec_text(&text, b"");
+                ctx.observe_str(&r.observe());
+                if r.parse_error.is_some() || r.result.is_err() {
+                    ctx.violation("wrong-value", format!("long poetic literal failed: {} — {:?}", r.observe(), text));
+                    return;
+                }
+                let want = parse_numeral(&numeral);
+                for line in r.stdout_str().lines() {
+                    match line.parse::<f64>() {
+                        Ok(v) if (v - want).abs() <= want.abs() * 1e-14 => {}
+                        _ => ctx.violation("wrong-value", format!("the words spell {} = {:?} but the program printed {:?} — {:?}", numeral, want, line, text)),
+                    }
                 }
             }
             _ => {
